@@ -1,0 +1,9 @@
+//go:build !verif
+
+package verifhook
+
+// Point marks a named point of a code path. No-op without the verif tag.
+func Point(string) {}
+
+// Fault returns an error to inject at a named point. Always nil without the verif tag.
+func Fault(string) error { return nil }
